@@ -20,19 +20,46 @@
 (***************************************************************************)
 EXTENDS Integers, Sequences, FiniteSets, TLC
 
-CONSTANTS Threads,        \* set of thread ids
+CONSTANTS
+          \* @type: Set(Int);
+          Threads,        \* set of thread ids
+          \* @type: Int;
           MaxNow,         \* clock bound
+          \* @type: Int;
           MaxHits,        \* bound on the number of Arrive steps
+          \* @type: Int;
           MaxJump,        \* how far one clock step may move (1 when model checking)
+          \* @type: Set({ck: Str, cv: Int, pk: Str, pv: Int, ws: Int, we: Int, cm: Str});
           Configs,        \* set of settings records, see CfgOK
+          \* @type: Int;
           DefaultPeriod,  \* the documented default (1000 ms) in ticks
+          \* @type: Bool;
           Atomic          \* TRUE = ideal (check+record atomic), FALSE = deviation
 
-VARIABLES cfg,   \* the tracepoint's settings (never changes): [ck, cv, pk, pv, ws, we, cm]
+VARIABLES
+          \* @type: {ck: Str, cv: Int, pk: Str, pv: Int, ws: Int, we: Int, cm: Str};
+          cfg,   \* the tracepoint's settings (never changes): [ck, cv, pk, pv, ws, we, cm]
                  \*   ck/pk: "int" | "bad" | "absent" (fire_count / fire_period argument), cv/pv the value
                  \*   ws/we: window start/end in ticks, 0 = unbounded on that side
                  \*   cm: "none" (no condition) | "blank" | "expr" (truth decided per hit)
-          now, count, last, pc, ts, cond, fires, hits, outcome
+          \* @type: Int;
+          now,
+          \* @type: Int;
+          count,
+          \* @type: Int;
+          last,
+          \* @type: Int -> Str;
+          pc,
+          \* @type: Int -> Int;
+          ts,
+          \* @type: Int -> Str;
+          cond,
+          \* @type: Seq(Int);
+          fires,
+          \* @type: Int;
+          hits,
+          \* @type: Int -> Str;
+          outcome
 
 vars == <<cfg, now, count, last, pc, ts, cond, fires, hits, outcome>>
 
